@@ -216,6 +216,35 @@ pub fn op_strategy_c14(n: u8) -> impl Strategy<Value = Op> {
     ]
 }
 
+/// The keys of open known findings (known_findings.json) a history keeps running through. `candidates` are the
+/// keys this check can produce for findings that leave the aggregator in a state the harness can still follow.
+pub fn tolerated_keys(check: &vcore::Check, args: &vcore::Args, candidates: &[&str]) -> Vec<String> {
+    if args.strict {
+        return vec![];
+    }
+    candidates.iter().filter(|k| check.has_open_known(k)).map(|k| k.to_string()).collect()
+}
+
+thread_local! {
+    static STICKY: std::cell::RefCell<Option<String>> = const { std::cell::RefCell::new(None) };
+}
+
+/// Shrinking aid for generated sections (one proptest runner per thread, which stops generating at its first
+/// failure): the first failing key of the thread sticks, candidates failing with another key count as passing,
+/// so the saved minimal case fails for the same reason as the case that was found.
+pub fn sticky_key(key: &str) -> bool {
+    STICKY.with(|s| {
+        let mut s = s.borrow_mut();
+        match &*s {
+            None => {
+                *s = Some(key.to_string());
+                true
+            }
+            Some(k) => k == key,
+        }
+    })
+}
+
 // ------------------------------------------------------------------------------------------------ observations
 
 pub fn tkey(t: &SignedEntityType) -> String {
@@ -262,6 +291,8 @@ pub struct Obs {
     pub non_current_signature: bool,
     pub buffered: u32,
     pub mislabelled_accepted: u32,
+    /// entities for which a row under a name other than its producer's was seen
+    pub mislabelled_stored: BTreeSet<String>,
 }
 
 pub struct RunOpts {
@@ -287,6 +318,8 @@ pub struct Run {
     pub opts: RunOpts,
     pub labels: BTreeSet<String>,
     pub violation: Option<(String, String)>,
+    pub tolerated: Vec<String>,
+    pub tolerated_hits: Vec<(String, String)>,
     pub op_index: usize,
     genesis_signer: GenesisSigner,
     trace_labels: Vec<String>,
@@ -343,6 +376,8 @@ impl Run {
             opts,
             labels: BTreeSet::new(),
             violation: None,
+            tolerated: vec![],
+            tolerated_hits: vec![],
             op_index: 0,
             genesis_signer: GenesisSigner::create_deterministic_signer(),
             trace_labels: vec![],
@@ -359,10 +394,29 @@ impl Run {
         self.labels.insert(l);
     }
 
-    pub fn violate(&mut self, key: &str, what: String) {
-        if self.violation.is_none() {
-            self.violation = Some((key.to_string(), format!("after op #{}: {what}", self.op_index)));
+    /// Record a violation. Returns true when the history must stop (the violation is not one of the `tolerated`
+    /// keys = open known findings, through which the history keeps running so that it can still find other things).
+    pub fn violate(&mut self, key: &str, what: String) -> bool {
+        let what = format!("after op #{}: {what}", self.op_index);
+        let tolerated = self.tolerated.iter().any(|k| match k.strip_suffix('*') {
+            Some(prefix) => key.starts_with(prefix),
+            None => k == key,
+        });
+        if tolerated {
+            if !self.tolerated_hits.iter().any(|(k, _)| k == key) {
+                self.tolerated_hits.push((key.to_string(), what));
+            }
+            return false;
         }
+        if self.violation.is_none() {
+            self.violation = Some((key.to_string(), what));
+        }
+        true
+    }
+
+    /// what the case reports: a real violation, else the first tolerated (known) one
+    pub fn verdict(&self) -> Option<(String, String)> {
+        self.violation.clone().or_else(|| self.tolerated_hits.first().cloned())
     }
 
     fn node(&self) -> &Node {
@@ -434,15 +488,22 @@ impl Run {
                         let certified = matches!(self.node().open_message(&t).await, Ok(Some(om)) if om.is_certified);
                         if !certified {
                             let err = r.clone().err().unwrap_or_default();
-                            self.violate(
-                                "honest-quorum-not-certified",
+                            let key = if self.obs.mislabelled_stored.contains(&tkey(&t)) { "mislabelled-signature-stored:quorum-blocked" } else { "honest-quorum-not-certified" };
+                            if self.violate(
+                                key,
                                 format!("{t:?}: the signatures honest parties got stored reach the quorum on their own, but the cycle did not certify: {}", err.chars().take(300).collect::<String>()),
-                            );
-                            return;
+                            ) {
+                                return;
+                            }
                         }
                         self.label("honest-quorum-certified");
                     }
                     if let Err(e) = &r {
+                        if let Some(msg) = e.strip_prefix("panic: ") {
+                            if self.violate("panic-in-cycle", format!("the state machine cycle panics: {}", msg.chars().take(300).collect::<String>())) {
+                                return;
+                            }
+                        }
                         let short = if e.contains("not enough signature") { "tick-err:not-enough-signatures" } else { "tick-err:other" };
                         self.label(short);
                         if std::env::var("VERIF_DEBUG").is_ok() && short.ends_with("other") {
@@ -724,7 +785,7 @@ impl Run {
                         dsig.won_indexes = dsig.to_protocol_signature().get_concatenation_signature_indices();
                         match self.node().submit_dmq(vec![(dsig, t.clone())]).await {
                             Ok(()) => Submitted::Registered,
-                            Err(e) => Submitted::Refused(e.chars().take(120).collect()),
+                            Err(e) => Submitted::Refused(e.chars().take(200).collect()),
                         }
                     }
                 };
@@ -746,6 +807,18 @@ impl Run {
                 self.label(format!("sign:{class}:{:?}:{:?}:{oc}", s.flavour, s.inlet));
                 if stored && label_party != Some(producer) {
                     self.obs.mislabelled_accepted += 1;
+                    self.obs.mislabelled_stored.insert(tkey(&t));
+                }
+                if let Submitted::Refused(why) = &outcome {
+                    if let Some(msg) = why.strip_prefix("panic: ") {
+                        // a submission a peer can make must never crash the aggregator's request handler / queue processor
+                        let registered = label_party.is_some_and(|p| self.model.members_for_signing_epoch(es).contains_key(&p));
+                        let key = if registered { "panic-on-submission" } else { "panic-on-submission:name-not-registered" };
+                        let what = format!("{t:?}: submission ({sub_class}, name {label}) through {:?} panics inside the aggregator: {msg}", s.inlet);
+                        if self.violate(key, what) {
+                            return;
+                        }
+                    }
                 }
                 self.obs.subs.entry(tkey(&t)).or_default().push(SubRec {
                     op_index: self.op_index,
@@ -801,17 +874,19 @@ impl Run {
         let known: BTreeSet<String> = self.obs.certs.iter().map(|c| c.hash.clone()).collect();
         let stored: BTreeMap<String, Certificate> = certs.iter().map(|c| (c.hash.clone(), c.clone())).collect();
         // stored certificates never change or vanish
-        for c in &self.obs.certs {
+        for c in self.obs.certs.clone().iter() {
             match stored.get(&c.hash) {
                 None => {
                     let (h, e) = (c.hash.clone(), c.epoch);
-                    self.violate("certificate-vanished", format!("certificate {h} (epoch {e}) is not stored any more"));
-                    return;
+                    if self.violate("certificate-vanished", format!("certificate {h} (epoch {e}) is not stored any more")) {
+                        return;
+                    }
                 }
                 Some(now) if now != c => {
                     let h = c.hash.clone();
-                    self.violate("certificate-changed", format!("stored certificate {h} changed"));
-                    return;
+                    if self.violate("certificate-changed", format!("stored certificate {h} changed")) {
+                        return;
+                    }
                 }
                 _ => {}
             }
@@ -893,8 +968,9 @@ impl Run {
         let genesis_verifier = Arc::new(self.genesis_signer.create_verifier());
         let verifier = MithrilCertificateVerifier::new(self.world.logger.clone(), Arc::new(MapRetriever(stored.clone())), genesis_verifier);
         if let Err(e) = verifier.verify_certificate_chain(c.clone()).await {
-            self.violate("I1-chain-does-not-verify", format!("{id}: mithril_common verifier: {e:?}"));
-            return;
+            if self.violate("I1-chain-does-not-verify", format!("{id}: mithril_common verifier: {e:?}")) {
+                return;
+            }
         }
         if self.opts.client_verifier {
             // the public client view: every certificate as served by GET /aggregator/certificate/{hash}
@@ -922,13 +998,15 @@ impl Run {
                 Ok(cv) => {
                     use mithril_client::certificate_client::CertificateVerifier as _;
                     if let Err(e) = cv.verify_chain(&me).await {
-                        self.violate("I1-client-verifier-rejects", format!("{id}: mithril-client verifier: {e:?}"));
-                        return;
+                        if self.violate("I1-client-verifier-rejects", format!("{id}: mithril-client verifier: {e:?}")) {
+                            return;
+                        }
                     }
                 }
                 Err(e) => {
-                    self.violate("I1-client-verifier-rejects", format!("{id}: cannot build client verifier: {e:?}"));
-                    return;
+                    if self.violate("I1-client-verifier-rejects", format!("{id}: cannot build client verifier: {e:?}")) {
+                        return;
+                    }
                 }
             }
         }
@@ -953,17 +1031,19 @@ impl Run {
         };
         match expected_parent {
             None => {
-                self.violate(
+                if self.violate(
                     "I5-certificate-after-skipped-epoch",
                     format!("{id}: neither epoch {e} nor epoch {} has a certificate in the current chain (since the last genesis): the chain has a gap", e.wrapping_sub(1)),
-                );
-                return;
+                ) {
+                    return;
+                }
             }
             Some(h) if h != c.previous_hash => {
                 let exp = stored.get(&h).map(|p| format!("{} (epoch {})", &h[..12], p.epoch)).unwrap_or(h.clone());
                 let got = stored.get(&c.previous_hash).map(|p| format!("{} (epoch {})", &c.previous_hash[..12.min(c.previous_hash.len())], p.epoch)).unwrap_or(c.previous_hash.clone());
-                self.violate("I3-wrong-parent", format!("{id}: parent is {got}, expected the first certificate of its epoch / of the previous epoch: {exp}"));
-                return;
+                if self.violate("I3-wrong-parent", format!("{id}: parent is {got}, expected the first certificate of its epoch / of the previous epoch: {exp}")) {
+                    return;
+                }
             }
             _ => {}
         }
@@ -971,8 +1051,9 @@ impl Run {
         // ---- I4: no signed entity certified twice
         let t = c.signed_entity_type();
         if self.obs.certs.iter().any(|p| !p.is_genesis() && p.signed_entity_type() == t) {
-            self.violate("I4-entity-certified-twice", format!("{id}: a certificate for {t:?} already exists"));
-            return;
+            if self.violate("I4-entity-certified-twice", format!("{id}: a certificate for {t:?} already exists")) {
+                return;
+            }
         }
 
         // ---- I2: key, parameters, message, signers
@@ -983,33 +1064,39 @@ impl Run {
         let cert_avk = avk_hex(&c.create_aggregate_verification_key());
         if cert_avk != avk_hex(&ks.avk) {
             let members: Vec<_> = ks.members.iter().collect();
-            self.violate("I2-wrong-aggregate-key", format!("{id}: aggregate verification key differs from the one derived from the registrations for epoch {e} (recorded under {}: {members:?})", e - 1));
-            return;
+            if self.violate("I2-wrong-aggregate-key", format!("{id}: aggregate verification key differs from the one derived from the registrations for epoch {e} (recorded under {}: {members:?})", e - 1)) {
+                return;
+            }
         }
         if c.metadata.protocol_parameters != self.model.params {
-            self.violate("I2-wrong-parameters", format!("{id}: parameters {:?}, in force {:?}", c.metadata.protocol_parameters, self.model.params));
-            return;
+            if self.violate("I2-wrong-parameters", format!("{id}: parameters {:?}, in force {:?}", c.metadata.protocol_parameters, self.model.params)) {
+                return;
+            }
         }
         if c.signed_message != c.protocol_message.compute_hash() {
-            self.violate("I2-signed-message-mismatch", format!("{id}: signed_message is not the hash of the protocol message"));
-            return;
+            if self.violate("I2-signed-message-mismatch", format!("{id}: signed_message is not the hash of the protocol message")) {
+                return;
+            }
         }
         if c.protocol_message.get_message_part(&ProtocolMessagePartKey::CurrentEpoch).map(|s| s.as_str()) != Some(e.to_string().as_str()) {
-            self.violate("I2-epoch-part-mismatch", format!("{id}: protocol message epoch part {:?}", c.protocol_message.get_message_part(&ProtocolMessagePartKey::CurrentEpoch)));
-            return;
+            if self.violate("I2-epoch-part-mismatch", format!("{id}: protocol message epoch part {:?}", c.protocol_message.get_message_part(&ProtocolMessagePartKey::CurrentEpoch))) {
+                return;
+            }
         }
         let next_members = self.model.store.get(&e).cloned().unwrap_or_default();
         match self.model.keyset(&next_members) {
             Some(next) => {
                 let expected: String = avk_hex(&next.avk);
                 if c.protocol_message.get_message_part(&ProtocolMessagePartKey::NextAggregateVerificationKey) != Some(&expected) {
-                    self.violate("I2-wrong-next-aggregate-key", format!("{id}: announced next aggregate key is not the one of the signers registered under epoch {e}: {next_members:?}"));
-                    return;
+                    if self.violate("I2-wrong-next-aggregate-key", format!("{id}: announced next aggregate key is not the one of the signers registered under epoch {e}: {next_members:?}")) {
+                        return;
+                    }
                 }
             }
             None => {
-                self.violate("I2-wrong-next-aggregate-key", format!("{id}: certificate issued although nobody is registered for the next epoch"));
-                return;
+                if self.violate("I2-wrong-next-aggregate-key", format!("{id}: certificate issued although nobody is registered for the next epoch")) {
+                    return;
+                }
             }
         }
         let CertificateSignature::MultiSignature(_, ms) = &c.signature else { return };
@@ -1025,19 +1112,22 @@ impl Run {
         })
         .unwrap_or(false);
         if !ok {
-            self.violate("I2-multi-signature-invalid", format!("{id}: multi-signature does not verify for its signed message under the derived key"));
-            return;
+            if self.violate("I2-multi-signature-invalid", format!("{id}: multi-signature does not verify for its signed message under the derived key")) {
+                return;
+            }
         }
         // sealed for an open message the harness saw, with that content
         match self.obs.open_seen.get(&tkey(&t)) {
             Some(o) if o.message == c.protocol_message => {}
             Some(_) => {
-                self.violate("I2-message-not-the-open-message", format!("{id}: protocol message differs from the open message that was announced"));
-                return;
+                if self.violate("I2-message-not-the-open-message", format!("{id}: protocol message differs from the open message that was announced")) {
+                    return;
+                }
             }
             None => {
-                self.violate("I2-no-open-message", format!("{id}: no open message was ever visible for {t:?}"));
-                return;
+                if self.violate("I2-no-open-message", format!("{id}: no open message was ever visible for {t:?}")) {
+                    return;
+                }
             }
         }
         let (mut valid_parties, indices) = self.valid_submissions(&t, &ks, &c.signed_message);
@@ -1046,16 +1136,19 @@ impl Run {
         }
         for sp in &c.metadata.signers {
             if !valid_parties.contains(&sp.party_id) {
-                self.violate(
-                    "I2-signer-listed-without-valid-signature",
+                let key = if self.obs.mislabelled_stored.contains(&tkey(&t)) { "mislabelled-signature-stored:listed-in-certificate" } else { "I2-signer-listed-without-valid-signature" };
+                if self.violate(
+                    key,
                     format!("{id}: metadata lists {} but no signature valid for that party's registered key was submitted for this message (valid submitters: {valid_parties:?})", sp.party_id),
-                );
-                return;
+                ) {
+                    return;
+                }
             }
             let stake_ok = self.model.party_index(&sp.party_id).map(|p| self.model.parties[p].stake) == Some(sp.stake);
             if !stake_ok {
-                self.violate("I2-signer-stake", format!("{id}: metadata stake of {} is {}", sp.party_id, sp.stake));
-                return;
+                if self.violate("I2-signer-stake", format!("{id}: metadata stake of {} is {}", sp.party_id, sp.stake)) {
+                    return;
+                }
             }
         }
         if (indices.len() as u64) < self.model.params.k {
@@ -1066,7 +1159,10 @@ impl Run {
         }
     }
 
-    /// C16: every stored single-signature row is the labelled party's own valid signature
+    /// C16: every stored single-signature row is the labelled party's own valid signature.
+    /// Keys: `mislabelled-signature-stored` = a row holds a signature that is valid, but for another party's key
+    /// (the class the design notes predicted, F13); its consequences carry that key as a prefix
+    /// (`:two-names`, `:honest-row-replaced`, `:listed-in-certificate`, `:quorum-blocked`), anything else gets its own key.
     async fn check_rows(&mut self) {
         let tp = self.world.time_point().await;
         let mut ts: Vec<SignedEntityType> = self.types_at(&tp);
@@ -1084,8 +1180,11 @@ impl Run {
                 let sig_hex = row.signature.to_json_hex().unwrap_or_default();
                 if let Some(other) = seen_sigs.get(&sig_hex) {
                     if other != &row.party_id {
-                        self.violate("same-signature-under-two-names", format!("{t:?}: one signature is stored under {other} and under {}", row.party_id));
-                        return;
+                        self.obs.mislabelled_stored.insert(tkey(&t));
+                        let what = format!("{t:?}: one signature is stored under {other} and under {}", row.party_id);
+                        if self.violate("mislabelled-signature-stored:two-names", what) {
+                            return;
+                        }
                     }
                 }
                 seen_sigs.insert(sig_hex, row.party_id.clone());
@@ -1096,11 +1195,22 @@ impl Run {
                 };
                 if !ok {
                     let truth = ks.as_ref().and_then(|ks| self.model.true_signer(ks, row, &message)).map(|q| self.model.parties[q].party_id.clone());
-                    self.violate(
-                        "row-not-by-labelled-party",
-                        format!("{t:?}: the signature stored under {} does not verify against the key that party registered for epoch {} (it verifies for: {truth:?})", row.party_id, om.epoch),
-                    );
-                    return;
+                    let fatal = match &truth {
+                        Some(q) => {
+                            self.obs.mislabelled_stored.insert(tkey(&t));
+                            self.violate(
+                                "mislabelled-signature-stored",
+                                format!("{t:?}: the row of {} holds a signature that does not verify against the key that party registered for epoch {}; it is the signature of {q}", row.party_id, om.epoch),
+                            )
+                        }
+                        None => self.violate(
+                            "invalid-signature-stored",
+                            format!("{t:?}: the row of {} holds a signature that verifies for nobody registered for epoch {}", row.party_id, om.epoch),
+                        ),
+                    };
+                    if fatal {
+                        return;
+                    }
                 }
             }
             // honest contributions stay
@@ -1112,11 +1222,20 @@ impl Run {
                     _ => false,
                 };
                 if !fine {
-                    self.violate(
-                        "honest-contribution-lost",
-                        format!("{t:?}: {} submitted its own valid signature (op #{}) and it was stored; now its row is {}", s.label, s.op_index, if row.is_some() { "another party's signature" } else { "gone" }),
+                    let replaced = match (row, &ks) {
+                        (Some(r), Some(ks)) => self.model.true_signer(ks, r, &message).is_some(),
+                        _ => false,
+                    };
+                    let key = if replaced { "mislabelled-signature-stored:honest-row-replaced" } else { "honest-contribution-lost" };
+                    let what = format!(
+                        "{t:?}: {} submitted its own valid signature (op #{}) and it was stored; now its row {}",
+                        s.label,
+                        s.op_index,
+                        if replaced { "holds another party's signature" } else if row.is_some() { "holds an invalid signature" } else { "is gone" }
                     );
-                    return;
+                    if self.violate(key, what) {
+                        return;
+                    }
                 }
             }
         }
